@@ -272,7 +272,8 @@ reg(Check("C08", "model_checking",
                  Part("msg", SRV, "^TestVerifC08Msg$", instr=True, gomaxprocs=16, deadline=(400, 3000)),
                  Part("msg-fault", SRV, "^TestVerifC08MsgFault$", instr=True, gomaxprocs=16, deadline=(400, 3000)),
                  Part("p2p", SRV, "^TestVerifC08P2P$", instr=True, gomaxprocs=16, deadline=(300, 2400)),
-                 Part("at-load", SRV, "^TestVerifC08AtLoad$", instr=True, shards=(16, 16), deadline=(300, 1200))]))
+                 Part("at-load", SRV, "^TestVerifC08AtLoad$", instr=True, shards=(16, 16), deadline=(300, 1200)),
+                 Part("at-end", SRV, "^TestVerifC08AtEnd$", instr=True, shards=(16, 16), deadline=(300, 1200))]))
 
 reg(Check("C13", "model_checking",
           "inputs: for each of the 10 client message kinds a well-formed baseline and, for every field of it (id, topic, what, mode, user, "
